@@ -155,6 +155,7 @@ func (e *Engine) callFn(st *State, fn *ssa.Function, args []Value, bind []Value,
 	mergeOK := e.mergeable(fn)
 	entryPC, entryTape, entryObs := st.pc, st.tape, st.obs
 	nPending := len(st.pending)
+	entrySplits := st.splits
 	if mergeOK {
 		st.mem = st.mem.child()
 	}
@@ -163,6 +164,11 @@ func (e *Engine) callFn(st *State, fn *ssa.Function, args []Value, bind []Value,
 	fr := e.newFrame(fn, args, bind)
 	outs := e.runFrame(fr, st)
 	e.depth--
+	for _, o := range outs {
+		if o.st.splits != entrySplits {
+			mergeOK = false
+		}
+	}
 	if mergeOK && len(outs) > 1 {
 		if m, ok := e.mergeOutcomes(entryPC, entryTape, entryObs, nPending, mark, outs); ok {
 			e.rep.Merged++
